@@ -21,6 +21,17 @@
 //	12 t p | 13 t                   goroutine t handles a read of peer p up to the hook DiscoveryRead.entities
 //	                                (the entity list is taken) | the rest (the reply is built and sent)
 //
+//	14 e (kind ty role)*            burst: one goroutine per call, released together on entity object e, real parallelism,
+//	                                no hooks; kind 0 NextFeatureId, 1 NewFeatureLocal(NextFeatureId) + AddFeature,
+//	                                2 GetOrAddFeature; the (type, role)s pairwise different, else 21 (BadBurst)
+//
+// Burst observations are canonical: the ids taken from the generator are sorted and paired with the
+// calls that take one in the order given (which goroutine obtained which id is the schedule's
+// business). From then on the runner names the features of that entity by the model's ids -- a
+// bijection on the ids of the burst, applied to every later observation and to the feature id of
+// op 4 -- and lists the features of that entity in a reply by id. If the ids of a burst are not
+// pairwise different no renaming is installed.
+//
 // A panic of the read handler is recovered in its goroutine and reported as observation 20
 // (ReadPanicked); 19 = parked at the hook.
 // ps (the function data supports partial writes) is a fact about the data model, computed
@@ -37,6 +48,7 @@ import (
 	"strconv"
 	"strings"
 	"sync"
+	"sync/atomic"
 	"time"
 
 	"github.com/enbility/spine-go/api"
@@ -176,6 +188,7 @@ func (w *writer) take() [][]byte {
 
 type worker struct {
 	tid    int64
+	e      int64
 	ent    *spine.EntityLocal
 	parked chan struct{}
 	resume chan struct{}
@@ -258,6 +271,23 @@ type impl struct {
 	sc      *sched
 	threads map[int64]*worker
 	readers map[int64]*reader
+	// after bursts: implementation feature id -> model feature id per entity, and back
+	ren, inv map[int64]map[int64]int64
+	bursted  map[int64]bool
+}
+
+func (m *impl) toModel(e, id int64) int64 {
+	if x, ok := m.ren[e][id]; ok {
+		return x
+	}
+	return id
+}
+
+func (m *impl) toImpl(e, id int64) int64 {
+	if x, ok := m.inv[e][id]; ok {
+		return x
+	}
+	return id
 }
 
 func featAddr(dev string, entity []model.AddressEntityType, f uint) *model.FeatureAddressType {
@@ -305,6 +335,7 @@ func (p *peer) datagram(classifier model.CmdClassifierType, ref *model.MsgCounte
 
 func newImpl() hx.Impl {
 	m := &impl{objs: map[int64]*spine.EntityLocal{}, member: map[int64]bool{0: true}, threads: map[int64]*worker{},
+		ren: map[int64]map[int64]int64{}, inv: map[int64]map[int64]int64{}, bursted: map[int64]bool{},
 		readers: map[int64]*reader{}, sc: &sched{byGoid: map[int64]*worker{}, readGoid: map[int64]*reader{}}}
 	m.dev = spine.NewDeviceLocal("brand", "model", "serial", "code", localDev, model.DeviceTypeTypeEnergyManagementSystem, model.NetworkManagementFeatureSetTypeSmart)
 	if e0, ok := m.dev.Entity([]model.AddressEntityType{0}).(*spine.EntityLocal); ok {
@@ -422,10 +453,15 @@ func (m *impl) renderData(d *model.NodeManagementDetailedDiscoveryDataType) []hx
 		}
 		out = append(out, hx.Zs{12, e, idOf(entityTypes, ei.Description.EntityType), lsc})
 	}
+	type fblock struct {
+		e, id int64
+		lines []hx.Zs
+	}
+	var blocks []fblock
 	for _, fi := range d.FeatureInformation {
 		fd := fi.Description
 		if fd == nil || fd.FeatureAddress == nil || fd.FeatureAddress.Feature == nil || fd.FeatureType == nil || fd.Role == nil {
-			out = append(out, hx.Zs{93})
+			blocks = append(blocks, fblock{-1, 0, []hx.Zs{{93}}})
 			continue
 		}
 		e := entID(fd.FeatureAddress.Entity)
@@ -438,13 +474,14 @@ func (m *impl) renderData(d *model.NodeManagementDetailedDiscoveryDataType) []hx
 			rid = 998
 			if ra != nil && ra.Feature != nil && ra.Device != nil && fd.FeatureAddress.Device != nil && *ra.Device == *fd.FeatureAddress.Device &&
 				reflect.DeepEqual(ra.Entity, fd.FeatureAddress.Entity) {
-				rid = int64(*ra.Feature)
+				rid = m.toModel(e, int64(*ra.Feature))
 			}
 			t, r := rf.Type(), rf.Role()
 			rty, rrole = idOf(featureTypes, &t), idOf(roles, &r)
 		}
-		out = append(out, hx.Zs{13, e, int64(*fd.FeatureAddress.Feature), idOf(featureTypes, fd.FeatureType), idOf(roles, fd.Role),
-			descID(fd.Description, *fd.FeatureType, *fd.Role), rid, rty, rrole})
+		fid := m.toModel(e, int64(*fd.FeatureAddress.Feature))
+		blk := fblock{e, fid, []hx.Zs{{13, e, fid, idOf(featureTypes, fd.FeatureType), idOf(roles, fd.Role),
+			descID(fd.Description, *fd.FeatureType, *fd.Role), rid, rty, rrole}}}
 		var fns []hx.Zs
 		for _, sf := range fd.SupportedFunction {
 			z := hx.Zs{14, idOf(functions, sf.Function), 0, 0, 0, 0}
@@ -461,7 +498,24 @@ func (m *impl) renderData(d *model.NodeManagementDetailedDiscoveryDataType) []hx
 			fns = append(fns, z)
 		}
 		sort.SliceStable(fns, func(i, j int) bool { return fns[i][1] < fns[j][1] })
-		out = append(out, fns...)
+		blk.lines = append(blk.lines, fns...)
+		blocks = append(blocks, blk)
+	}
+	// the features of an entity that went through a burst are listed by (model) id: their order in
+	// the entity's list is the order in which the goroutines appended
+	for i := 0; i < len(blocks); {
+		j := i
+		for j < len(blocks) && blocks[j].e == blocks[i].e {
+			j++
+		}
+		if m.bursted[blocks[i].e] {
+			run := blocks[i:j]
+			sort.SliceStable(run, func(a, b int) bool { return run[a].id < run[b].id })
+		}
+		i = j
+	}
+	for _, b := range blocks {
+		out = append(out, b.lines...)
 	}
 	return append(out, hx.Zs{15})
 }
@@ -621,7 +675,7 @@ func (m *impl) Exec(op hx.Zs) []hx.Zs {
 		if ent == nil {
 			return m.quiet([]hx.Zs{{2}})
 		}
-		f := ent.FeatureOfAddress(util.Ptr(model.AddressFeatureType(op[2])))
+		f := ent.FeatureOfAddress(util.Ptr(model.AddressFeatureType(m.toImpl(op[1], op[2]))))
 		if f == nil || reflect.ValueOf(f).IsNil() {
 			return m.quiet([]hx.Zs{{18}})
 		}
@@ -655,7 +709,7 @@ func (m *impl) Exec(op hx.Zs) []hx.Zs {
 		}
 		before := len(ent.Features())
 		f := ent.GetOrAddFeature(ft, role)
-		return m.quiet([]hx.Zs{{5, int64(*f.Address().Feature), b2i(len(ent.Features()) > before)}})
+		return m.quiet([]hx.Zs{{5, m.toModel(op[1], int64(*f.Address().Feature)), b2i(len(ent.Features()) > before)}})
 	case 7:
 		if len(op) != 5 {
 			return bad
@@ -672,7 +726,7 @@ func (m *impl) Exec(op hx.Zs) []hx.Zs {
 		if ent == nil {
 			return m.quiet([]hx.Zs{{2}})
 		}
-		w := &worker{tid: op[1], ent: ent, parked: make(chan struct{}, 1), resume: make(chan struct{}), done: make(chan struct{})}
+		w := &worker{tid: op[1], e: op[2], ent: ent, parked: make(chan struct{}, 1), resume: make(chan struct{}), done: make(chan struct{})}
 		m.threads[op[1]] = w
 		before := len(ent.Features())
 		started := make(chan struct{})
@@ -691,7 +745,7 @@ func (m *impl) Exec(op hx.Zs) []hx.Zs {
 			return m.quiet([]hx.Zs{{6}})
 		case <-w.done:
 			w.state = 3
-			return m.quiet([]hx.Zs{{5, int64(*w.ret.Address().Feature), b2i(len(ent.Features()) > before)}})
+			return m.quiet([]hx.Zs{{5, m.toModel(w.e, int64(*w.ret.Address().Feature)), b2i(len(ent.Features()) > before)}})
 		case <-time.After(5 * time.Second):
 			return []hx.Zs{{96}}
 		}
@@ -712,7 +766,7 @@ func (m *impl) Exec(op hx.Zs) []hx.Zs {
 		case <-time.After(5 * time.Second):
 			return []hx.Zs{{96}}
 		}
-		return m.quiet([]hx.Zs{{5, int64(*w.ret.Address().Feature), b2i(len(ent.Features()) > before)}})
+		return m.quiet([]hx.Zs{{5, m.toModel(w.e, int64(*w.ret.Address().Feature)), b2i(len(ent.Features()) > before)}})
 	case 9, 10:
 		if len(op) != 3 || op[1] < 0 || op[1] >= nPeers || op[2] < 0 {
 			return bad
@@ -802,9 +856,149 @@ func (m *impl) Exec(op hx.Zs) []hx.Zs {
 			return m.quiet([]hx.Zs{{20}})
 		}
 		return m.readReply(rd.peer, rd.ref)
+	case 14:
+		return m.burst(op)
 	}
 	return bad
 }
+
+// burst: overlapping calls on one entity object, one goroutine each, released together
+func (m *impl) burst(op hx.Zs) []hx.Zs {
+	bad := []hx.Zs{{97}}
+	if len(op) < 2 || (len(op)-2)%3 != 0 {
+		return bad
+	}
+	e := op[1]
+	n := (len(op) - 2) / 3
+	type call struct {
+		kind int64
+		ft   model.FeatureTypeType
+		role model.RoleType
+	}
+	calls := make([]call, n)
+	seen := map[[2]int64]bool{}
+	wf := true
+	for j := 0; j < n; j++ {
+		k, ty, role := op[2+3*j], op[3+3*j], op[4+3*j]
+		if k < 0 || k > 2 {
+			return bad
+		}
+		calls[j].kind = k
+		if k == 0 {
+			continue
+		}
+		if ty < 1 || int(ty) >= len(featureTypes) || role < 1 || int(role) >= len(roles) {
+			return bad
+		}
+		calls[j].ft, calls[j].role = featureTypes[ty], roles[role]
+		if seen[[2]int64{ty, role}] {
+			wf = false
+		}
+		seen[[2]int64{ty, role}] = true
+	}
+	if !wf {
+		return m.quiet([]hx.Zs{{21}})
+	}
+	ent := m.objs[e]
+	if ent == nil {
+		return m.quiet([]hx.Zs{{2}})
+	}
+	// a GetOrAddFeature takes an id iff its feature does not exist before the burst (the (type, role)s of a burst differ)
+	had := make([]bool, n)
+	for j, c := range calls {
+		if c.kind == 2 {
+			f := ent.FeatureOfTypeAndRole(c.ft, c.role)
+			had[j] = f != nil && !reflect.ValueOf(f).IsNil()
+		}
+	}
+	ids := make([]int64, n)
+	var ready, goFlag atomic.Int32
+	var wg sync.WaitGroup
+	for j := range calls {
+		wg.Add(1)
+		go func(j int) {
+			defer wg.Done()
+			c := calls[j]
+			// spin barrier: all goroutines leave it within nanoseconds of each other
+			ready.Add(1)
+			for spins := 0; goFlag.Load() == 0; spins++ {
+				if spins%4096 == 4095 {
+					runtime.Gosched() // fewer processors than goroutines
+				}
+			}
+			switch c.kind {
+			case 0:
+				ids[j] = int64(ent.NextFeatureId())
+			case 1:
+				f := spine.NewFeatureLocal(ent.NextFeatureId(), ent, c.ft, c.role)
+				ent.AddFeature(f)
+				ids[j] = int64(*f.Address().Feature)
+			default:
+				f := ent.GetOrAddFeature(c.ft, c.role)
+				ids[j] = int64(*f.Address().Feature)
+			}
+		}(j)
+	}
+	for int(ready.Load()) < n {
+		runtime.Gosched()
+	}
+	goFlag.Store(1)
+	wg.Wait()
+	burstStats["bursts"]++
+	burstStats["burst_calls"] += n
+	// canonical observation
+	var taken []int64
+	for j, c := range calls {
+		if c.kind != 2 || !had[j] {
+			taken = append(taken, ids[j])
+		}
+	}
+	sorted := append([]int64(nil), taken...)
+	sort.Slice(sorted, func(a, b int) bool { return sorted[a] < sorted[b] })
+	distinct := true
+	inOrder := true
+	for i := range sorted {
+		if i > 0 && sorted[i] == sorted[i-1] {
+			distinct = false
+		}
+		if sorted[i] != taken[i] {
+			inOrder = false
+		}
+	}
+	if !inOrder {
+		burstStats["bursts_ids_not_in_call_order"]++
+	}
+	m.bursted[e] = true
+	if distinct {
+		if m.ren[e] == nil {
+			m.ren[e], m.inv[e] = map[int64]int64{}, map[int64]int64{}
+		}
+		for i, x := range taken {
+			m.ren[e][x] = sorted[i]
+			m.inv[e][sorted[i]] = x
+		}
+	} else {
+		burstStats["bursts_with_duplicate_ids"]++
+	}
+	var ret []hx.Zs
+	k := 0
+	for j, c := range calls {
+		switch {
+		case c.kind == 2 && had[j]:
+			ret = append(ret, hx.Zs{5, m.toModel(e, ids[j]), 0})
+		case c.kind == 2:
+			ret = append(ret, hx.Zs{5, sorted[k], 1})
+			k++
+		default:
+			ret = append(ret, hx.Zs{4, sorted[k]})
+			k++
+		}
+	}
+	return m.quiet(ret)
+}
+
+// measured over the run (reported in the evidence)
+var burstStats = map[string]int{}
 
 // ---------------------------------------------------------------- generator
 
@@ -906,6 +1100,133 @@ func (s *sim) removeEntityID(e int64) {
 		}
 		s.list = l
 	}
+}
+
+// burst: k overlapping calls on entity e with pairwise different (type, role)s; the predicted ids
+// are the model's (in the order given)
+func (s *sim) burst(e int64, k int) {
+	r := s.r
+	z := hx.Zs{14, e}
+	used := map[[2]int64]bool{}
+	en := s.ents[e]
+	gets := 0
+	for j := 0; j < k; j++ {
+		kind := int64(r.Pick(25, 55, 20))
+		if kind == 2 && gets >= 2 {
+			kind = 1
+		}
+		if kind == 0 {
+			z = append(z, 0, 0, 0)
+			if en != nil {
+				en.ctr++
+			}
+			continue
+		}
+		var ty, role int64
+		for try := 0; ; try++ {
+			ty, role = s.tyRole()
+			if kind == 2 && en != nil && len(en.feats) > 0 && r.Chance(1, 4) {
+				f := en.feats[r.Intn(len(en.feats))] // a GetOrAddFeature of a feature that exists
+				ty, role = f.ty, f.role
+			}
+			if !used[[2]int64{ty, role}] || try > 40 {
+				break
+			}
+		}
+		if used[[2]int64{ty, role}] {
+			// no free (type, role) found: ask for a number instead
+			z = append(z, 0, 0, 0)
+			if en != nil {
+				en.ctr++
+			}
+			continue
+		}
+		used[[2]int64{ty, role}] = true
+		if kind == 2 {
+			gets++
+		}
+		z = append(z, kind, ty, role)
+		if en != nil {
+			if kind == 1 {
+				id := en.ctr
+				en.ctr++
+				if !s.has(e, ty, role) {
+					en.feats = append(en.feats, simFeat{id, ty, role})
+				}
+			} else {
+				s.created(e, ty, role)
+			}
+		}
+	}
+	s.h = append(s.h, z)
+}
+
+// badBurst: two calls naming one (type, role): refused by both sides
+func (s *sim) badBurst(e int64) {
+	ty, role := s.tyRole()
+	z := hx.Zs{14, e, 1, ty, role, 0, 0, 0, int64(1 + s.r.Intn(2)), ty, role}
+	s.h = append(s.h, z)
+}
+
+// burstRounds: concurrent feature creation on one entity object, announced and used afterwards
+func (s *sim) burstRounds() {
+	r := s.r
+	s.newEntity()
+	e := s.h[0][1]
+	if r.Chance(1, 6) {
+		e = 0 // the device-information entity has a generator of its own, starting at 0
+	}
+	add := func() {
+		if e != 0 {
+			s.addEntityID(e)
+		}
+	}
+	if r.Chance(2, 3) {
+		add()
+	}
+	for k := r.Intn(3); k > 0; k-- {
+		ty, role := s.tyRole()
+		s.addFeatureTo(e, ty, role)
+	}
+	if r.Chance(1, 3) {
+		s.subscribe()
+	}
+	for round := r.Range(3, 7); round > 0; round-- {
+		if r.Chance(1, 20) {
+			s.badBurst(e)
+		}
+		s.burst(e, r.Range(2, 8))
+		switch r.Pick(30, 15, 15, 10, 10, 10, 10) {
+		case 0:
+			add()
+			s.read()
+		case 1:
+			s.addFunctionTo(e)
+		case 2:
+			// GetOrAddFeature of a feature a burst created (or another one)
+			en := s.ents[e]
+			if len(en.feats) > 0 {
+				f := en.feats[r.Intn(len(en.feats))]
+				s.h = append(s.h, hx.Zs{6, e, f.ty, f.role})
+			} else {
+				s.getOrAdd()
+			}
+		case 3:
+			s.h = append(s.h, hx.Zs{5, e})
+			s.ents[e].ctr++
+		case 4:
+			if e != 0 {
+				s.removeEntityID(e)
+			}
+		case 5:
+			ty, role := s.tyRole()
+			s.addFeatureTo(e, ty, role)
+		default:
+			s.read()
+		}
+	}
+	add()
+	s.read()
 }
 
 func (s *sim) addFunctionTo(e int64) {
@@ -1071,9 +1392,10 @@ func (s *sim) unsubscribe() {
 func (s *sim) read() { s.h = append(s.h, hx.Zs{11, int64(s.r.Intn(nPeers))}) }
 
 func (s *sim) mixedStep(conc, overlap bool) {
-	w := []int{8, 10, 7, 18, 9, 4, 9, 9, 5, 12, 0, 0, 0, 0}
+	w := []int{8, 10, 7, 18, 9, 4, 9, 9, 5, 12, 0, 0, 0, 0, 0}
 	if conc {
 		w[10], w[11] = 12, 12
+		w[14] = 8
 	}
 	if overlap {
 		w[12], w[13] = 9, 9
@@ -1119,6 +1441,8 @@ func (s *sim) mixedStep(conc, overlap bool) {
 		s.create(int64(s.r.Intn(4)))
 	case 12:
 		s.readBegin(int64(s.r.Intn(4)))
+	case 14:
+		s.burst(s.pickEnt(true), s.r.Range(2, 6))
 	default:
 		t := int64(s.r.Intn(4))
 		// mostly end a read that is pending
@@ -1254,12 +1578,14 @@ func (s *sim) overlapChange() {
 
 func gen(r *hx.Rng, tier string, i int) []hx.Zs {
 	s := newSim(r)
-	switch i % 6 {
+	switch i % 7 {
 	case 0: // sequential: configurations, additions, removals, reads
 		for n := r.Range(8, 60); n > 0; n-- {
 			s.mixedStep(false, false)
 		}
 		s.read()
+	case 6: // bursts of overlapping feature creation on one entity object, announced and used afterwards
+		s.burstRounds()
 	case 4: // reads held open (several at once) across removals / additions of entities, features and functions
 		s.overlapRounds()
 	case 5: // sequential traffic with overlapped reads
@@ -1349,6 +1675,10 @@ func fixed(tier string) [][]hx.Zs {
 		// two reads pending at once around removals at the first and the last position, an addition, a feature and a function
 		{{0, 1, 2}, {0, 2, 3}, {0, 3, 4}, {3, 2, 4, 2, 0}, {1, 1}, {1, 2}, {1, 3}, {9, 1, 0}, {12, 0, 1}, {2, 1}, {12, 1, 2}, {2, 3},
 			{3, 2, 5, 2, 1}, {4, 2, 1, 11, 1, 0, b2i(psup(4, 11))}, {1, 1}, {13, 1}, {12, 1, 0}, {13, 0}, {13, 1}, {13, 1}, {11, 1}},
+		// bursts: eight goroutines creating features on entity 1 (one GetOrAddFeature of an existing feature, one of a new one,
+		// two bare NextFeatureId), a refused burst, a function on and a GetOrAddFeature of burst features, a second burst, reads
+		{{0, 1, 2}, {3, 1, 4, 2, 0}, {1, 1}, {14, 1, 1, 5, 2, 0, 0, 0, 2, 4, 2, 2, 6, 1, 1, 7, 1, 1, 3, 2, 0, 0, 0, 1, 5, 1}, {11, 0},
+			{14, 1, 1, 6, 2, 2, 6, 2}, {4, 1, 2, 13, 1, 1, b2i(psup(5, 13))}, {6, 1, 7, 1}, {14, 1, 1, 2, 2, 1, 6, 2, 0, 0, 0, 1, 4, 1}, {5, 1}, {11, 2}},
 	}
 }
 
@@ -1359,13 +1689,16 @@ func main() {
 			4: "feature-id-reused", 5: "get-or-add-not-one-feature", 6: "malformed-observation", 98: "unparseable-observation", 99: "unparseable-operation"},
 		OpNames: map[int64]string{0: "new-entity", 1: "add-entity", 2: "remove-entity", 3: "add-feature", 4: "add-function", 5: "next-id",
 			6: "get-or-add", 7: "get-or-add.lookup", 8: "get-or-add.create", 9: "subscribe", 10: "unsubscribe", 11: "read",
-			12: "read.begin", 13: "read.end"},
+			12: "read.begin", 13: "read.end", 14: "burst"},
 		NewImpl: newImpl,
 		Gen:     gen,
 		Fixed:   fixed,
 		Extra: func() map[string]any {
 			out := map[string]any{}
 			for k, v := range genStats {
+				out[k] = v
+			}
+			for k, v := range burstStats {
 				out[k] = v
 			}
 			return out
